@@ -318,6 +318,11 @@ func rewriteSelect(fset *token.FileSet, s *ast.SelectStmt, id int) (ast.Stmt, er
 		swCases = append(swCases, &ast.CaseClause{List: []ast.Expr{&ast.BasicLit{Kind: token.INT, Value: fmt.Sprint(idx)}}, Body: body})
 		idx++
 	}
+	if !hasDefault {
+		// a select whose every case ends in return/panic is a terminating statement; keep the generated
+		// switch terminating too (Select never returns an index outside the cases)
+		swCases = append(swCases, &ast.CaseClause{List: nil, Body: []ast.Stmt{&ast.ExprStmt{X: call(ast.NewIdent("panic"), &ast.BasicLit{Kind: token.STRING, Value: `"vsched: select index out of range"`})}}})
+	}
 	iv := ast.NewIdent(fmt.Sprintf("_vs%d_i", id))
 	readyFn := &ast.FuncLit{
 		Type: &ast.FuncType{Params: &ast.FieldList{List: []*ast.Field{{Names: []*ast.Ident{iv}, Type: ast.NewIdent("int")}}},
